@@ -3,8 +3,9 @@
 (* Validates filter applications OBSERVED in the real Mako (logging        *)
 (* callables for user filters, interposed mako.filters functions and a     *)
 (* module-level `str` for the builtin flags) against Filters.  Each trace  *)
-(* is one rendered template: its configuration and the sequence of filter  *)
-(* functions that were actually called, innermost first.  The machine of   *)
+(* is one rendered template with ONE construct: its session (Filters.cfg)  *)
+(* and the sequence of filter functions that were actually called,         *)
+(* innermost first.  The machine of                                        *)
 (* Filters is run on the configuration; every ApplyOne step must match the *)
 (* next recorded application.  One verdict {t, ok, i, clause} per trace.   *)
 (***************************************************************************)
@@ -17,14 +18,14 @@ TInit == \E i \in 1..Len(Traces) : tr = i /\ FInit(Traces[i].cfg) /\ verdict = "
 Report(ok, i, clause) == PrintT(ToJson([t |-> Rec.id, ok |-> ok, i |-> i, clause |-> clause]))
 TStep ==
   /\ verdict = "run" /\ phase # "done" /\ FNext /\ UNCHANGED tr
-  /\ LET n == Len(apps') IN
-     IF n > Len(apps) /\ (n > Len(Rec.apps) \/ Rec.apps[n] # apps'[n])
+  /\ LET n == Len(apps'[1]) IN
+     IF n > Len(apps[1]) /\ (n > Len(Rec.apps) \/ Rec.apps[n] # apps'[1][n])
      THEN verdict' = "fail" /\ Report(FALSE, n, IF n > Len(Rec.apps) THEN "application-missing" ELSE "application-differs")
      ELSE verdict' = "run"
 TJudge ==
   /\ verdict = "run" /\ phase = "done" /\ UNCHANGED <<fvars, tr>>
-  /\ IF Len(Rec.apps) > Len(apps) THEN verdict' = "fail" /\ Report(FALSE, Len(apps) + 1, "extra-application")
-     ELSE IF ~PipelineOrder THEN verdict' = "fail" /\ Report(FALSE, 0, "inv:PipelineOrder")
+  /\ IF Len(Rec.apps) > Len(apps[1]) THEN verdict' = "fail" /\ Report(FALSE, Len(apps[1]) + 1, "extra-application")
+     ELSE IF ~(PipelineOrder /\ ConfigImmutable) THEN verdict' = "fail" /\ Report(FALSE, 0, "inv:PipelineOrder")
      ELSE verdict' = "ok" /\ Report(TRUE, 0, "")
 TNext == TStep \/ TJudge
 TSpec == TInit /\ [][TNext]_tvars
